@@ -36,6 +36,17 @@ inductive Atom where
   | statusIs (s : Status) -- `switch pi.Status`
   | stateOk               -- `spt.getState` returned no error
   | getOk                 -- `st.Get` returned no error
+  | opNil                 -- `op == nil` after `TrackNewOperation` (round 8c)
+  | sendOk                -- `ch <- op` can proceed (non-blocking send in `enqueue`)
+  | isMeta                -- `c.Type == api.MetaType`
+  | isRemote              -- `c.IsRemotePin(spt.peerID)`
+  | notFound              -- `err == state.ErrNotFound` after `st.Get`
+  | lsOk                  -- `err == nil` after the RPC `IPFSConnector.PinLsCid`
+  | ipfsUnpinned          -- `ips.ToTrackerStatus() == TrackerStatusUnpinned`
+  | pinnedInIpfs          -- `localpis[own mode][cid]` present (localStatus)
+  | incExtra              -- argument of localStatus
+  | fMatch (s : Status)   -- `filter.Match(S)`
+  | fMatchSelf            -- `pi.Status.Match(filter)` (statusAll's last filter)
   | unknown
   deriving DecidableEq, Repr
 
@@ -45,6 +56,12 @@ inductive Act where
   | setPhase (p : Phase) | setPhaseArg | setError | setErrMsg | stamp
   | cancel | cancelCtx | call
   | pinDefault | pinRecorded | enqueuePin | enqueueUnpin
+  | trackNewQ | trackNewRemote | chPin | chUnpin | send | errFull | retErr | clean       -- round 8c: enqueue / Track
+  | retEnqueuePin | retEnqueueUnpinCid | getExists | retRecOp | retRecStatus
+  | localAll | overlayOps | filterLoop | putOp                                            -- round 8c: statusAll
+  | lookupOwnMode | skip | putInfo | putIpfs                                               -- round 8c: localStatus
+  | listAll | forEach | recEntry | appendResp                                            -- round 8c: RecoverAll
+  | retOp | addError | retInfo | setStatus (s : Status) | setIpfs | pinLsCid              -- round 8c: Tracker.Status
   | unknown
   deriving DecidableEq, Repr
 
@@ -199,6 +216,236 @@ def recOf : List Act → Bool → Option (OpType × Bool)
 
 def recT (t : Table) (st : Status) (stateOk getOk : Bool) : Option (Option (OpType × Bool)) :=
   (firstRow t (envRec st stateOk getOk)).map (fun a => recOf a false)
+
+/-! ### round 8c: `Tracker.enqueue`, `Track`, `Untrack`, `Recover` -/
+
+/-- the channel variable `ch` when the send / the default branch is reached: the last assignment on the path (none = Go's nil channel) -/
+def chanOf : List Act → Option CallKind → Option CallKind
+  | [], ch => ch
+  | .chPin :: r, _ => chanOf r (some .pin)
+  | .chUnpin :: r, _ => chanOf r (some .unpin)
+  | .send :: _, ch => ch
+  | _ :: r, ch => chanOf r ch
+
+/-- `ch <- op` can proceed: the buffered channel has room. A send on the nil channel never proceeds. -/
+def roomFor (cfg : Cfg) (s : State) : Option CallKind → Bool
+  | some .pin => decide (s.pinQ.length < cfg.cap)
+  | some .unpin => decide (s.unpinQ.length < cfg.cap)
+  | none => false
+
+def envEnq (opNil : Bool) (typ : OpType) (room : Bool) : Atom → Bool
+  | .opNil => opNil
+  | .typIs t => t == Ty.ofOp typ
+  | .sendOk => room
+  | _ => false
+
+structure EnqSt where
+  s : State
+  op : Option Nat := none
+  ch : Option CallKind := none
+  err : Bool := false
+
+/-- executes a path of `enqueue` on the model state (none = a path the model has no meaning for: send without an operation, `return err`
+    without an error, no return) -/
+def execEnq (p : PinSpec) (typ : OpType) : List Act → EnqSt → Option (State × Ret)
+  | [], _ => none
+  | .trackNewQ :: r, e =>
+    match e.op with
+    | none => execEnq p typ r { e with s := (trackNew e.s p typ .queued).1, op := (trackNew e.s p typ .queued).2 }
+    | some _ => none
+  | .chPin :: r, e => execEnq p typ r { e with ch := some .pin }
+  | .chUnpin :: r, e => execEnq p typ r { e with ch := some .unpin }
+  | .send :: r, e =>
+    match e.op, e.ch with
+    | some i, some .pin => execEnq p typ r { e with s := { e.s with pinQ := e.s.pinQ ++ [i] } }
+    | some i, some .unpin => execEnq p typ r { e with s := { e.s with unpinQ := e.s.unpinQ ++ [i] } }
+    | _, _ => none
+  | .errFull :: r, e => execEnq p typ r { e with err := true }
+  | .setError :: r, e =>
+    match e.op with
+    | some i => execEnq p typ r { e with s := { e.s with ops := upd e.s.ops i { e.s.ops i with phase := .error } } }
+    | none => none
+  | .cancel :: r, e =>
+    match e.op with
+    | some i => execEnq p typ r { e with s := cancelOp e.s i }
+    | none => none
+  | .retNil :: _, e => some (e.s, .nil)
+  | .retErr :: _, e => if e.err then some (e.s, .full) else none
+  | _, _ => none
+
+/-- the path of `enqueue` taken: the first row whose literals hold, `sendOk` being judged for the channel THAT row assigned -/
+def enqueueT (t : Table) (cfg : Cfg) (s : State) (p : PinSpec) (typ : OpType) : Option (State × Ret) :=
+  let r := trackNew s p typ .queued
+  match t.find? (fun row => holdsLits (envEnq r.2.isNone typ (roomFor cfg r.1 (chanOf row.acts none))) row.lits) with
+  | some row => execEnq p typ row.acts { s := s }
+  | none => none
+
+def envTrack (k : Kind) (opNil errNil : Bool) : Atom → Bool
+  | .isMeta => k == .sharded
+  | .isRemote => k == .remote
+  | .opNil => opNil
+  | .errNil => errNil
+  | _ => false
+
+/-- `Track` up to the point where it returns or waits for the synchronous `unpin` call (`.call`): the rest (`afterCall`) runs when the
+    daemon answers — the model's `retOk` / `retErr` on a `sync` call. -/
+def execTrack (cfg : Cfg) (p : PinSpec) : List Act → State → Option Nat → Option (State × Ret)
+  | [], _, _ => none
+  | .trackNewRemote :: r, s, none => execTrack cfg p r (trackNew s p .remote .inProgress).1 (trackNew s p .remote .inProgress).2
+  | .call :: _, s, some i => some ({ s with calls := s.calls ++ [{ op := i, kind := .unpin, sync := true, eff := false }] }, .nil)
+  | .retNil :: _, s, _ => some (s, .nil)
+  | .retEnqueuePin :: _, s, none => some (enqueue cfg s p .pin)
+  | _, _, _ => none
+
+/-- `Track(p)` as the regenerated table says (after the consensus component recorded `p` in the pinset, as in `track`). `errNil` = what the
+    synchronous call WILL answer: it must not matter before the call. -/
+def trackT (t : Table) (cfg : Cfg) (s0 : State) (p : PinSpec) (errNil : Bool) : Option (State × Ret) :=
+  let s := { s0 with shared := upd s0.shared p.cid (some p),
+                     failed := if p.kind = .here then upd s0.failed p.cid false else s0.failed }
+  match firstRow t (envTrack p.kind (trackNew s p .remote .inProgress).2.isNone errNil) with
+  | some acts => execTrack cfg p acts s none
+  | none => none
+
+/-- the remote branch of `Track` after the synchronous call answered -/
+def trackAfter (t : Table) (errNil : Bool) : List Act := afterCall ((firstRow t (envTrack .remote false errNil)).getD [.unknown])
+
+def envFound (b : Bool) : Atom → Bool
+  | .found => b
+  | _ => false
+
+/-- `Recover(c)`: the status handed to `recoverWithPinInfo` — the table entry's when there is one, else `Status(c)` -/
+def recoverT (t : Table) (cfg : Cfg) (s : State) (c : Nat) : Option (State × Ret) :=
+  match firstRow t (envFound (s.cur c).isSome), s.cur c with
+  | some [.getExists, .retRecOp], some i => some (recoverWith cfg s c (opStatus (s.ops i)))
+  | some [.getExists, .retRecStatus], none => some (recoverWith cfg s c (statusOf s c))
+  | _, _ => none
+
+/-! ### round 8c: `Tracker.Status` -/
+
+def envStatus (found stateOk notFound getOk : Bool) (k : Kind) (lsOk unp : Bool) : Atom → Bool
+  | .found => found
+  | .stateOk => stateOk
+  | .notFound => notFound
+  | .getOk => getOk
+  | .isMeta => k == .sharded
+  | .isRemote => k == .remote
+  | .lsOk => lsOk
+  | .ipfsUnpinned => unp
+  | _ => false
+
+/-- the `Status` field of the PinInfo a path of `Tracker.Status` returns. `op` = the table entry's status (`GetExists`), `ipfs` = what
+    `ToTrackerStatus` made of the daemon's answer, `cur` = the field so far (zero value `TrackerStatusUndefined`), `asked` = the daemon was
+    asked (`setIpfs` without a `PinLsCid` call has no meaning). `addError` writes cluster_error (table `addError`). -/
+def execStatus (op ipfs : Status) : List Act → Status → Bool → Option Status
+  | [], _, _ => none
+  | .getExists :: r, cur, a => execStatus op ipfs r cur a
+  | .pinLsCid :: r, cur, _ => execStatus op ipfs r cur true
+  | .addError :: r, _, a => execStatus op ipfs r .clusterError a
+  | .setStatus st :: r, _, a => execStatus op ipfs r st a
+  | .setIpfs :: r, _, true => execStatus op ipfs r ipfs true
+  | .retOp :: _, _, _ => some op
+  | .retInfo :: _, cur, _ => some cur
+  | _, _, _ => none
+
+/-- `Tracker.Status(c)` as the regenerated table says, on a model state; `ls` = the daemon's read works; `stateOk` / `getOk` = the shared
+    state can be read (always true in the model's runs: the harness's state never fails) -/
+def statusTbl (t : Table) (s : State) (ls : Bool) (c : Nat) (stateOk getOk : Bool := true) : Option Status :=
+  let op := match s.cur c with
+    | some i => opStatus (s.ops i)
+    | none => .undefined
+  let k := match s.shared c with
+    | some p => p.kind
+    | none => .here
+  let held := match s.shared c with
+    | some p => heldAs s c p.mode
+    | none => false
+  match firstRow t (envStatus (s.cur c).isSome stateOk (s.shared c).isNone getOk k ls (!held)) with
+  | some acts => execStatus op (if held then .pinned else .unpinned) acts .undefined false
+  | none => none
+
+/-! ### round 8c: `Tracker.RecoverAll` — listing, then the loop (one iteration = table `recoverAllBody`) -/
+
+def envErr (b : Bool) : Atom → Bool
+  | .errNil => b
+  | _ => false
+
+/-- one iteration on the listed entry `(c, st)`: the new state and `some r` when the loop is LEFT returning `r` (none = next entry) -/
+def bodyT (t : Table) (cfg : Cfg) (s : State) (c : Nat) (st : Status) : Option (State × Option Ret) :=
+  match firstRow t (envErr (decide ((recoverWith cfg s c st).2 = .nil))) with
+  | some [.recEntry, .retErr] => some ((recoverWith cfg s c st).1, some (recoverWith cfg s c st).2)
+  | some [.recEntry, .appendResp, .retVoid] => some ((recoverWith cfg s c st).1, none)
+  | _ => none
+
+/-- the loop over the listing `L` with the regenerated body (items as in `raLoop`: activity of the others before the entry, the cid) -/
+def raLoopT (t : Table) (cfg : Cfg) (L : Nat → Option Status) : State → List (List Ev × Nat) → Option (State × Ret)
+  | s, [] => some (s, .nil)
+  | s, (pre, c) :: rest =>
+    match L c with
+    | none => raLoopT t cfg L (run cfg s pre) rest
+    | some st =>
+      match bodyT t cfg (run cfg s pre) c st with
+      | some (s2, some r) => some (s2, r)
+      | some (s2, none) => raLoopT t cfg L s2 rest
+      | none => none
+
+/-! ### round 8c: `localStatus`, one pin of the pinset -/
+
+def envLocal (k : Kind) (pinned incExtra : Bool) (fm : Status → Bool) : Atom → Bool
+  | .isMeta => k == .sharded
+  | .isRemote => k == .remote
+  | .pinnedInIpfs => pinned
+  | .incExtra => incExtra
+  | .fMatch s => fm s
+  | _ => false
+
+/-- what one iteration puts in the map: `some none` = nothing (`continue`), `some (some st)` = an entry with that status. The daemon's own
+    entry (`putIpfs`, status pinned: `PinLs` lists pinned items) needs the lookup among the pins of the pin's OWN mode before it. -/
+def execLocal : List Act → Status → Bool → Option (Option Status)
+  | [], _, _ => none
+  | .lookupOwnMode :: r, cur, _ => execLocal r cur true
+  | .setStatus s :: r, _, l => execLocal r s l
+  | .skip :: _, _, _ => some none
+  | .putInfo :: .retVoid :: _, cur, _ => some (some cur)
+  | .putIpfs :: .retVoid :: _, _, true => some (some .pinned)
+  | _, _, _ => none
+
+def localT (t : Table) (k : Kind) (pinned incExtra : Bool) (fm : Status → Bool) : Option (Option Status) :=
+  (firstRow t (envLocal k pinned incExtra fm)).bind (fun a => execLocal a .undefined false)
+
+/-! ### round 8c: `statusAll` — `localStatus`, then the operation table laid over it, then the filter -/
+
+def envSelf (b : Bool) : Atom → Bool
+  | .fMatchSelf => b
+  | _ => false
+
+/-- the entry of ONE cid through `statusAll`: `loc` = its entry from `localStatus`, `op` = the status of its table entry, `fm` = the filter.
+    `some none` = not listed. -/
+def execSA (overlay filt : Table) (op : Option Status) (fm : Status → Bool) : List Act → Option Status → Option (Option Status)
+  | [], _ => none
+  | .localAll :: r, e => execSA overlay filt op fm r e
+  | .overlayOps :: r, e =>
+    match firstRow overlay (fun _ => false) with
+    | some [.putOp, .retVoid] => execSA overlay filt op fm r (match op with | some st => some st | none => e)
+    | _ => none
+  | .filterLoop :: r, e =>
+    match e with
+    | none => execSA overlay filt op fm r none
+    | some st =>
+      match firstRow filt (envSelf (fm st)) with
+      | some [.appendResp, .retVoid] => execSA overlay filt op fm r (some st)
+      | some [.retVoid] => execSA overlay filt op fm r none
+      | _ => none
+  | .retNil :: _, e => some e
+  | .retErr :: _, _ => some none
+  | _, _ => none
+
+/-- `statusAll(ctx, filter)`'s entry for `c` on a model state; `ls` = `localStatus` could list (`PinLs` works) -/
+def statusAllT (outer overlay filt : Table) (s : State) (ls : Bool) (fm : Status → Bool) (c : Nat) : Option (Option Status) :=
+  match firstRow outer (envErr ls) with
+  | some acts =>
+    execSA overlay filt (match s.cur c with | some i => some (opStatus (s.ops i)) | none => none) fm acts
+      (statusAllOf { s with cur := fun _ => none } c)
+  | none => none
 
 def allStatuses : List Status :=
   [.pinned, .pinning, .pinQueued, .pinError, .unpinned, .unpinning, .unpinQueued, .unpinError,
